@@ -489,6 +489,26 @@ class TmpCollide(Component):
       s.o2 @= zext(b_c, 8)
 
 
+class LoopVarCollide(Component):
+  """loop variables of two blocks whose flattened names coincide: block up / variable rd_i and block up_rd / variable i"""
+  def construct(s):
+    s.in_ = InPort(Bits8)
+    s.out = OutPort(Bits8)
+    s.o2 = OutPort(Bits8)
+
+    @update
+    def up():
+      s.out @= 0
+      for rd_i in range(4):
+        s.out[rd_i] @= s.in_[rd_i + 4]
+
+    @update
+    def up_rd():
+      s.o2 @= 0
+      for i in range(8):
+        s.o2[i] @= s.in_[7 - i]
+
+
 class UnicodeName(Component):
   """a port and a wire whose (legal Python) names are not legal Verilog identifiers"""
   def construct(s):
@@ -548,4 +568,4 @@ class StructNameCollide(Component):
 
 
 MANGLE = {"MangleIfc": MangleIfc, "MangleList": MangleList, "MangleChild": MangleChild, "MangleStruct": MangleStruct,
-          "MangleChildList": MangleChildList, "MangleWireIfc": MangleWireIfc, "KeywordField": KeywordField, "TmpCollide": TmpCollide, "UnicodeName": UnicodeName, "BlockNamedLikeSignal": BlockNamedLikeSignal, "StructNameCollide": StructNameCollide}
+          "MangleChildList": MangleChildList, "MangleWireIfc": MangleWireIfc, "KeywordField": KeywordField, "TmpCollide": TmpCollide, "LoopVarCollide": LoopVarCollide, "UnicodeName": UnicodeName, "BlockNamedLikeSignal": BlockNamedLikeSignal, "StructNameCollide": StructNameCollide}
